@@ -149,20 +149,49 @@ Proof.
   cbn [cmp3 cmpZ]. apply is_true_tv_of_bool.
 Qed.
 
+(* ---------- SELECT * FROM c WHERE w  (a member of the union over C) ---------- *)
+Lemma filter_ext_in2 : forall (A : Type) (P Q : A -> bool) (l : list A),
+  (forall x, In x l -> P x = Q x) -> filter P l = filter Q l.
+Proof.
+  intros A P Q l H. induction l as [|x l IH]; [reflexivity|]. cbn [filter].
+  rewrite (H x (or_introl eq_refl)), IH; [reflexivity|]. intros y Hy. apply H. right. exact Hy.
+Qed.
+
+Lemma dedup_rows_in : forall l seen r, In r (dedup_rows l seen) -> In r l.
+Proof.
+  induction l as [|x l IH]; intros seen r H; [destruct H|]. cbn [dedup_rows] in H.
+  destruct (mem_row x seen).
+  - right. exact (IH _ _ H).
+  - destruct H as [H|H]; [left; exact H | right; exact (IH _ _ H)].
+Qed.
+
+Lemma sel_rows_call : forall a,
+  map snd (sel_rows d (sel_call (tr_sx 0 ColY a))) =
+  map cvals (filter (fun c => is_true (sxeval a (c_y c))) (cs d)).
+Proof.
+  intros a. unfold sel_rows, sel_call. rewrite sel_envs_c, !map_map.
+  rewrite (filter_ext' _ (fun c => is_true (beval d (env_c c) (tr_sx 0 ColY a))) (fun c => is_true (sxeval a (c_y c)))).
+  2:{ intros c. rewrite sx_tr. reflexivity. }
+  apply map_ext'. intros c. reflexivity.
+Qed.
+
+Lemma crow_of_cvals : forall c, crow_of_vals (cvals c) = c.
+Proof. intros []. reflexivity. Qed.
+
 (* ---------- every shape ---------- *)
 Theorem core_rows_meaning : forall q, query_ok d q = true ->
   core_rows d (orm_to_core d q) = meaning_rows d q.
 Proof.
-  intros q Hok. destruct q as [c|k|outer t sp sc m|outer sc sp|sc|a b|c|vals sc]; cbn [orm_to_core core_rows meaning_rows].
+  intros q Hok. destruct q as [c|k|outer t sp sc m|outer sc sp|sc|a b|c|a b post|vals sc]; cbn [orm_to_core core_rows meaning_rows].
   - (* select(P).where(c) *)
     unfold sel_rows. rewrite sel_envs_p, map_map. cbn [query_ok] in Hok.
     rewrite (filter_ext' _ (fun p => is_true (beval d (env_p p) (tr_pcrit d 0 c))) (fun p => is_true (peval d p c))).
-    2:{ intros p. f_equal. apply pcrit_tr; [reflexivity | discriminate | exact Hok]. }
+    2:{ intros p. f_equal. apply pcrit_tr; [reflexivity | unfold sub_alias; lia | exact Hok]. }
     apply map_ext'. intros p. reflexivity.
   - (* select(C).where(k) *)
     unfold sel_rows. rewrite sel_envs_c, map_map.
     rewrite (filter_ext' _ (fun c => is_true (beval d (env_c c) (tr_ccrit 0 k))) (fun c => is_true (ceval d c k))).
-    2:{ intros c. f_equal. apply ccrit_tr; [reflexivity | discriminate]. }
+    2:{ intros c. f_equal. apply ccrit_tr; [reflexivity | unfold sub_alias; lia]. }
     apply map_ext'. intros c. reflexivity.
   - (* join along P.children *)
     unfold sel_rows. rewrite sel_envs_pc, map_map.
@@ -189,10 +218,10 @@ Proof.
     cbn [query_ok] in Hok. apply andb_true_iff in Hok. destruct Hok as [Ha Hb].
     f_equal. f_equal. unfold sel_rows. rewrite !sel_envs_p, !map_map. f_equal.
     + rewrite (filter_ext' _ (fun p => is_true (beval d (env_p p) (tr_pcrit d 0 a))) (fun p => is_true (peval d p a))).
-      2:{ intros p. f_equal. apply pcrit_tr; [reflexivity | discriminate | exact Ha]. }
+      2:{ intros p. f_equal. apply pcrit_tr; [reflexivity | unfold sub_alias; lia | exact Ha]. }
       apply map_ext'. intros p. reflexivity.
     + rewrite (filter_ext' _ (fun p => is_true (beval d (env_p p) (tr_pcrit d 0 b))) (fun p => is_true (peval d p b))).
-      2:{ intros p. f_equal. apply pcrit_tr; [reflexivity | discriminate | exact Hb]. }
+      2:{ intros p. f_equal. apply pcrit_tr; [reflexivity | unfold sub_alias; lia | exact Hb]. }
       apply map_ext'. intros p. reflexivity.
   - (* select(Node).where(c) *)
     change (sel_rows d (sel_n (tr_ncrit 0 c)) =
@@ -201,6 +230,13 @@ Proof.
     rewrite (filter_ext' _ (fun n => is_true (beval d (env_c n) (tr_ncrit 0 c))) (fun n => is_true (neval d n c))).
     2:{ intros n. f_equal. apply ncrit_tr; [reflexivity | discriminate]. }
     apply map_ext'. intros n. reflexivity.
+  - (* union over C with a criterion added after the union *)
+    rewrite !sel_rows_call. f_equal. apply filter_ext_in2. intros r Hr.
+    apply dedup_rows_in in Hr. apply in_app_or in Hr.
+    assert (Hc : exists c, r = cvals c).
+    { destruct Hr as [Hr|Hr]; apply in_map_iff in Hr; destruct Hr as [c [Hc _]]; exists c; symmetry; exact Hc. }
+    destruct Hc as [c Hc]. subst r. rewrite crow_of_cvals. f_equal.
+    apply ccrit_tr; [reflexivity | unfold sub_alias; lia].
   - (* the single-table subclass twice *)
     unfold sel_rows. rewrite sel_envs_sibs, map_map.
     rewrite (filter_ext' _ (fun ab => is_true (beval d (env_cc ab) (s_where (sel_sibs sc))))
